@@ -125,6 +125,8 @@ def handle : List String → Option String
       | .missing => "missing" | .malformed => "malformed" | .mismatch => "mismatch" | .proceed => "proceed") (v4Date d c))
   | ["timeparse", "compact", s] => do pure (toString (Time.parseCompact (← Bytes.ofHex s)))
   | ["timeparse", "ymd", s] => do pure (toString (Time.parseYMD (← Bytes.ofHex s)))
+  | ["queryunescape", s] => do
+    pure (match queryUnescape (← Bytes.ofHex s) with | none => "err" | some b => "ok " ++ hx b)
   | ["trimspace", s] => do pure (hx (trimSpace (← Bytes.ofHex s)))
   | ["aclparser", fixed, u] => do
     let fixed ← parseBool fixed
